@@ -132,9 +132,6 @@ def XPlainVs : JVals → Prop
   | .cons v rest => XPlainV v ∧ XPlainVs rest
 end
 
-/-- at the top level ghosts need a field to stand in front of -/
-def XRoot (fs : JFields) : Prop := gFields fs ≠ [] ∨ gLead fs = 0
-
 /-! ### sizes and tapes: ghosts, the implicit `=` and quotes around keys leave no trace on the tape -/
 
 theorem fieldsTsize_addLead (n : Nat) : ∀ (fs : List (Key × TextDe.Op × Node)),
@@ -671,17 +668,37 @@ theorem gitemsMs : ∀ (vs : JVals), XPlainVs vs → itemToks (TextReader.itemsM
       simp only [dMs, TextReader.itemsM, gNodes, lexNodes, itemToks_append, gitemsV v h.1, gitemsMs rest h.2]
 end
 
-/-- the reader tokens of a document: its leading ghosts, then its fields -/
-theorem gitemsDoc (fs : JFields) (hp : XPlainF fs) (hr : XRoot fs) :
-    itemToks (TextReader.itemsM (dM fs)) = lexemes (gDoc fs) := by
-  rw [gitemsM fs hp]
-  simp only [lexemes, gDoc]
+/-- a document that consists of ghost `{}` only: the reader path skips them and ends as on the empty input -/
+theorem deStream_ghosts (enc : TextDe.Enc) (ty : TextDe.Ty) (n : Nat) :
+    TextDe.deStream enc ty (ghostToks n) = TextDe.deStream enc ty [] := by
+  have hlen : (ghostToks n).length + 1 = n + (n + 1) := by rw [TextDe.ghostToks_len]; omega
+  have key : ∀ {σ κ : Type} (K : σ → TextDe.RTok → TextDe.R κ)
+      (V : σ → κ → TextDe.RTok → TextDe.Op → List TextDe.RTok → TextDe.R (σ × List TextDe.RTok)) (st : σ),
+      TextDe.sMapFold true K V ((ghostToks n).length + 1) (ghostToks n) st = TextDe.sMapFold true K V ([] : List TextDe.RTok).length.succ [] st := by
+    intro σ κ K V st
+    rw [hlen]
+    have := TextDe.sMapFold_ghosts true K V (n + 1) [] st n
+    rw [List.append_nil] at this
+    rw [this, TextDe.sMapFold_end true K V n [] [] st (Or.inr ⟨rfl, rfl, rfl⟩)]
+    exact (TextDe.sMapFold_end true K V 0 [] [] st (Or.inr ⟨rfl, rfl, rfl⟩)).symm
+  cases ty <;> simp only [TextDe.deStream, key, List.length_nil]
+
+/-- the reader path on the tokens of a document (its leading ghosts, then its fields): the value of `gDoc fs`; a
+document that consists of ghosts only has the value of the empty document -/
+theorem deStream_gdoc (enc : TextDe.Enc) (ty : TextDe.Ty) (fs : JFields) (hroot : Ty.isRoot ty = true)
+    (hwf : wfFields (gDoc fs) = true) (hfit : Fits enc ty (.obj (gDoc fs))) :
+    TextDe.deStream enc ty (ghostToks (gLead fs) ++ lexFields (gFields fs)) = valueOf enc ty (gDoc fs) := by
+  have h := TextDe.deStream_eq_valueOf enc ty (gDoc fs) hroot hwf hfit
+  simp only [gDoc, lexemes] at h hwf hfit ⊢
   cases hg : gFields fs with
   | nil =>
-    rcases hr with h | h
-    · exact absurd hg h
-    · simp [h, ghostToks, addLead, lexFields]
-  | cons f r => rw [lexFields_addLead]
+    rw [hg] at h
+    simp only [addLead, lexFields, List.append_nil] at h ⊢
+    rw [deStream_ghosts]; exact h
+  | cons f r =>
+    rw [hg] at h
+    rw [lexFields_addLead] at h
+    exact h
 
 /-! ### a valid C01 layout of the fragment is a valid reader-safe C07 layout -/
 
@@ -807,18 +824,18 @@ end
 /-! ### from bytes to value on the stream path, and both paths -/
 
 /-- the slice reader model is faithful on every valid layout of the fragment (C07_slice_faithful through the
-structural map `dM`): it ends cleanly and yields exactly `lexemes (gDoc fs)` -/
+structural map `dM`): it ends cleanly and yields exactly the document's leading ghosts and the tokens of its fields -/
 theorem gsliceLex (fs : JFields) (gt : Bytes) (hgt : Blank gt) (hv : JValidF fs gt)
-    (hb : hasBom (jrenderF fs ++ gt) = false) (hp : XPlainF fs) (hr : XRoot fs) :
+    (hb : hasBom (jrenderF fs ++ gt) = false) (hp : XPlainF fs) :
     (TextReader.sliceTokens (jrenderF fs ++ gt)).out = .end_ ∧
-    (TextReader.sliceTokens (jrenderF fs ++ gt)).toks.map toRTok = lexemes (gDoc fs) := by
+    (TextReader.sliceTokens (jrenderF fs ++ gt)).toks.map toRTok = ghostToks (gLead fs) ++ lexFields (gFields fs) := by
   have hrm := grenderM fs hp
   obtain ⟨h1, h2, _⟩ := Jomini.Props.C07.C07_slice_faithful_x (dM fs) gt false (gvalidM fs gt hp hv)
     (.gap gt (gap_of_blank hgt)) (fun _ => by rw [hrm]; exact no_bom_clash _ hb)
   simp only [TextReader.bomBytes, Bool.false_eq_true, ↓reduceIte, List.nil_append, hrm] at h1 h2
   refine ⟨h2, ?_⟩
   rw [h1, List.map_map]
-  exact gitemsDoc fs hp hr
+  exact gitemsM fs hp
 
 /-- C02 end to end, stream path, full syntax: for every document of the fragment `XPlainF` -- reader-safe scalars,
 keys quoted or not, every operator, the `=` left out before a `{`, ghost `{}` in key position (in front of a
@@ -826,41 +843,41 @@ key, behind a value, at the start of a nested object), arrays, empty containers,
 valid layout of it, both encodings and every fitting root type, the tokens the slice reader model produces
 from the BYTES deserialize to the value of the layout-free document `gDoc fs`. -/
 theorem C02_stream_end_to_end_full (enc : TextDe.Enc) (ty : TextDe.Ty) (fs : JFields) (gt : Bytes)
-    (hgt : Blank gt) (hv : JValidF fs gt) (hb : hasBom (jrenderF fs ++ gt) = false) (hp : XPlainF fs) (hr : XRoot fs)
+    (hgt : Blank gt) (hv : JValidF fs gt) (hb : hasBom (jrenderF fs ++ gt) = false) (hp : XPlainF fs)
     (hroot : Ty.isRoot ty = true) (hfit : Fits enc ty (.obj (gDoc fs))) :
     (TextReader.sliceTokens (jrenderF fs ++ gt)).out = .end_ ∧
     TextDe.deStream enc ty ((TextReader.sliceTokens (jrenderF fs ++ gt)).toks.map toRTok) = valueOf enc ty (gDoc fs) := by
-  obtain ⟨h1, h2⟩ := gsliceLex fs gt hgt hv hb hp hr
-  exact ⟨h1, by rw [h2]; exact TextDe.deStream_eq_valueOf enc ty (gDoc fs) hroot (gwfDoc fs gt hp hv) hfit⟩
+  obtain ⟨h1, h2⟩ := gsliceLex fs gt hgt hv hb hp
+  exact ⟨h1, by rw [h2]; exact deStream_gdoc enc ty fs hroot (gwfDoc fs gt hp hv) hfit⟩
 
 /-- C02 end to end, both paths from the same BYTES, full syntax: tape path = stream path = the document's
 value, for every valid layout of every document of `XPlainF`. -/
 theorem C02_paths_end_to_end_full (enc : TextDe.Enc) (ty : TextDe.Ty) (fs : JFields) (gt : Bytes)
-    (hgt : Blank gt) (hv : JValidF fs gt) (hb : hasBom (jrenderF fs ++ gt) = false) (hp : XPlainF fs) (hr : XRoot fs)
+    (hgt : Blank gt) (hv : JValidF fs gt) (hb : hasBom (jrenderF fs ++ gt) = false) (hp : XPlainF fs)
     (hroot : Ty.isRoot ty = true) (hfit : FitsT enc false ty (.obj (gDoc fs))) :
     ∃ T b, TextTape.parse (jrenderF fs ++ gt) = .ok T b ∧
       TextDe.deTape enc ty (toTextDeTape T) = valueOf enc ty (gDoc fs) ∧
       TextDe.deStream enc ty ((TextReader.sliceTokens (jrenderF fs ++ gt)).toks.map toRTok) = valueOf enc ty (gDoc fs) := by
   obtain ⟨T, b, h1, h2⟩ := C02_tape_end_to_end_full enc ty fs gt hgt hv hb hp hroot hfit
-  exact ⟨T, b, h1, h2, (C02_stream_end_to_end_full enc ty fs gt hgt hv hb hp hr hroot (TextDe.fitsT_fits enc hfit)).2⟩
+  exact ⟨T, b, h1, h2, (C02_stream_end_to_end_full enc ty fs gt hgt hv hb hp hroot (TextDe.fitsT_fits enc hfit)).2⟩
 
 /-- … for EVERY root target type (errors included): the same result on both paths, namely `valueOf`, unless the
 (type, document) pair contains one of the combinations of `Bad` -/
 theorem C02_error_agreement_end_to_end_full (enc : TextDe.Enc) (ty : TextDe.Ty) (fs : JFields) (gt : Bytes)
-    (hgt : Blank gt) (hv : JValidF fs gt) (hb : hasBom (jrenderF fs ++ gt) = false) (hp : XPlainF fs) (hr : XRoot fs)
+    (hgt : Blank gt) (hv : JValidF fs gt) (hb : hasBom (jrenderF fs ++ gt) = false) (hp : XPlainF fs)
     (hroot : Ty.isRoot ty = true) :
     (∃ T b, TextTape.parse (jrenderF fs ++ gt) = .ok T b ∧
       TextDe.deTape enc ty (toTextDeTape T) = valueOf enc ty (gDoc fs) ∧
       TextDe.deStream enc ty ((TextReader.sliceTokens (jrenderF fs ++ gt)).toks.map toRTok) = valueOf enc ty (gDoc fs)) ∨
     Bad enc false ty (.obj (gDoc fs)) := by
   rcases TextDe.fitsT_or_bad enc (ty.height + 1) ty false (.obj (gDoc fs)) (Nat.lt_succ_self _) with h | h
-  · exact Or.inl (C02_paths_end_to_end_full enc ty fs gt hgt hv hb hp hr hroot h)
+  · exact Or.inl (C02_paths_end_to_end_full enc ty fs gt hgt hv hb hp hroot h)
   · exact Or.inr h
 
 /-- … the streaming reader, for every fault-free read schedule and every buffer capacity that fits -/
 theorem C02_stream_end_to_end_scheduled_full (enc : TextDe.Enc) (ty : TextDe.Ty) (fs : JFields) (gt : Bytes)
     (cap : Nat) (sched : List TextReader.Step)
-    (hgt : Blank gt) (hv : JValidF fs gt) (hb : hasBom (jrenderF fs ++ gt) = false) (hp : XPlainF fs) (hr : XRoot fs)
+    (hgt : Blank gt) (hv : JValidF fs gt) (hb : hasBom (jrenderF fs ++ gt) = false) (hp : XPlainF fs)
     (hw : TextReader.WfSched sched) (hnf : TextReader.NoFaults sched)
     (hcap : TextReader.Spec.need (jrenderF fs ++ gt) ≤ cap)
     (hroot : Ty.isRoot ty = true) (hfit : Fits enc ty (.obj (gDoc fs))) :
@@ -868,7 +885,7 @@ theorem C02_stream_end_to_end_scheduled_full (enc : TextDe.Enc) (ty : TextDe.Ty)
     TextDe.deStream enc ty ((TextReader.streamTokens cap sched (jrenderF fs ++ gt)).toks.map toRTok)
       = valueOf enc ty (gDoc fs) := by
   obtain ⟨e1, e2, _⟩ := Jomini.Props.C07.C07_stream_eq_slice_fits (jrenderF fs ++ gt) cap sched hw hnf hcap
-  obtain ⟨s1, s2⟩ := C02_stream_end_to_end_full enc ty fs gt hgt hv hb hp hr hroot hfit
+  obtain ⟨s1, s2⟩ := C02_stream_end_to_end_full enc ty fs gt hgt hv hb hp hroot hfit
   exact ⟨e2.trans s1, by rw [e1]; exact s2⟩
 
 /-- … stated on texttape's FULL document type (`C01_faithful_full`, Spec/TextDocFull.lean): `JFields.toF` embeds the
@@ -877,7 +894,7 @@ the image of `toF` are mixed containers / arrays that turn mixed and parameter b
 C02, where the two paths differ (`C02_mixed_container_paths_differ`, `C02_parameter_block_paths_differ`) -- and
 nested objects whose FIRST field is a header field, which stay out. -/
 theorem C02_paths_end_to_end_fdoc (enc : TextDe.Enc) (ty : TextDe.Ty) (fs : JFields) (gt : Bytes)
-    (hgt : Blank gt) (hv : JValidF fs gt) (hb : hasBom (frenderF fs.toF ++ gt) = false) (hp : XPlainF fs) (hr : XRoot fs)
+    (hgt : Blank gt) (hv : JValidF fs gt) (hb : hasBom (frenderF fs.toF ++ gt) = false) (hp : XPlainF fs)
     (hroot : Ty.isRoot ty = true) (hfit : FitsT enc false ty (.obj (gDoc fs))) :
     FValidF fs.toF gt ∧
     ∃ T, TextTape.parse (frenderF fs.toF ++ gt) = .ok T false ∧ T.map Tok.erase = dtapeF fs.toF 0 ∧
@@ -886,7 +903,7 @@ theorem C02_paths_end_to_end_fdoc (enc : TextDe.Enc) (ty : TextDe.Ty) (fs : JFie
   have hfv := toF_validF fs gt hv
   obtain ⟨T, hT, hE⟩ := Jomini.Props.C01.C01_faithful_full fs.toF gt hgt hfv hb
   rw [toF_renderF] at hb hT ⊢
-  obtain ⟨T', b, h1, h2, h3⟩ := C02_paths_end_to_end_full enc ty fs gt hgt hv hb hp hr hroot hfit
+  obtain ⟨T', b, h1, h2, h3⟩ := C02_paths_end_to_end_full enc ty fs gt hgt hv hb hp hroot hfit
   rw [hT] at h1
   cases h1
   exact ⟨hfv, T, hT, hE, h2, h3⟩
@@ -921,7 +938,7 @@ theorem exampleFull_valid : JValidF exampleFull [10] := by
     | exact .inl (by unfold Scal.Valid; simp only [↓reduceIte]; decide +kernel)
     | exact .inr (.inl ⟨rfl, [120], rfl, by simp, by decide +kernel⟩)
 
-theorem exampleFull_plain : XPlainF exampleFull ∧ XRoot exampleFull := by
+theorem exampleFull_plain : XPlainF exampleFull := by
   have u : ∀ c : UInt8, TextTape.isBoundary c = false → TextTape.isBlank c = false → c ≠ 34 → c ≠ 64 → c ≠ 63 →
       SafeScal (Scal.mk false [c]) := by
     intro c h1 h2 h3 h4 h5
@@ -938,7 +955,6 @@ theorem exampleFull_plain : XPlainF exampleFull ∧ XRoot exampleFull := by
   have h99 := u 99 (by decide +kernel) (by decide +kernel) (by decide) (by decide) (by decide)
   have h100 := u 100 (by decide +kernel) (by decide +kernel) (by decide) (by decide) (by decide)
   have h101 := u 101 (by decide +kernel) (by decide +kernel) (by decide) (by decide) (by decide)
-  refine ⟨?_, Or.inl (by simp [exampleFull, gFields])⟩
   simp only [exampleFull, XPlainF, XPlainV, XPlainVs, XObj, JVal.isBraced, hq.toX, hvar, h50.toX, h51.toX, h98.toX, h99.toX,
     h100.toX, h101.toX, and_true, true_and, and_self]
 
@@ -952,8 +968,21 @@ example :
       valueOf .utf8 (.st [([97], .str), ([98], .map (.prop .i64)), ([100], .st [([101], .u8)])]) (gDoc exampleFull)
         = .ok (.st [([97], .str [64, 120]), ([98], .map [(.str [99], .prop .lt (.int 2))]), ([100], .st [([101], .uint 3)])]) := by
   obtain ⟨T, b, h1, h2, h3⟩ := C02_paths_end_to_end_full .utf8 (.map .ign) exampleFull [10]
-    (.ws 10 [] (by decide +kernel) .nil) exampleFull_valid (by decide +kernel) exampleFull_plain.1 exampleFull_plain.2 rfl
+    (.ws 10 [] (by decide +kernel) .nil) exampleFull_valid (by decide +kernel) exampleFull_plain rfl
     (.map (fun _ _ _ _ => .ign))
   exact ⟨T, b, h1, h2, h3, by rfl, by rfl⟩
+
+/-- a document that consists of ghost `{}` only (`{} {}` + newline) is inside the theorems: both paths return the value
+of the empty document -/
+example :
+    ∃ T b, TextTape.parse ([123, 125, 32, 123, 125] ++ [10]) = .ok T b ∧
+      TextDe.deTape .utf8 (.st [([97], .opt .str)]) (toTextDeTape T) = .ok (.st [([97], .none)]) ∧
+      TextDe.deStream .utf8 (.st [([97], .opt .str)]) ((TextReader.sliceTokens ([123, 125, 32, 123, 125] ++ [10])).toks.map toRTok)
+        = .ok (.st [([97], .none)]) := by
+  have sp : Blank [32] := .ws 32 [] (by decide +kernel) .nil
+  obtain ⟨T, b, h1, h2, h3⟩ := C02_paths_end_to_end_full .utf8 (.st [([97], .opt .str)]) (.ghost [] [] (.ghost [32] [] .nil)) [10]
+    (.ws 10 [] (by decide +kernel) .nil) (by simp only [JValidF]; exact ⟨.nil, .nil, sp, .nil, trivial⟩) (by decide +kernel)
+    (by simp [XPlainF]) rfl (.st (fun k o v hm => by simp [gDoc, gFields, addLead] at hm))
+  exact ⟨T, b, h1, h2, h3⟩
 
 end Jomini.TextE2E
